@@ -13,17 +13,20 @@
    that x is falsy (empty map / b'').  Both functions are arbitrary: every theorem holds for
    all of them.  [f] places a fault in the request: request lost, pickle.loads of field i
    fails inside the worker, the compiler raises, the reply is unusable (status 2).
-   [run fal cont sys0 h] = the list of (request, outcome); the outcome of a compile request is
+   [run true true fal cont sys0 h] = the list of (request, outcome); the outcome of a compile request is
    [OutC x (ObsC a b c d e) re]: x = what was put on the wire, a..e = the CONTENTS with which
    the worker-side compiler entry point was entered (user schema, global schema, reflection
    cache, database config, system config), re = the reply; of compile_in_tx
    [OutT w reuse (ObsT sid root) re]: serving worker, marker sent?, state id and root user
    schema content the compiler was entered with.
-   [clean_hist fal h] (executable, Model.v): no request supplies None or a falsy object for one
-   of the five values, compile_in_tx never supplies None as state, and the faults are: none,
-   request lost, compiler exception, unpickle failure of user schema / reflection cache /
-   database config / tx state.  (Falsy objects, unpickle failure of the global schema or the
-   system config, and status-2 replies are where the full statement FAILS: Refuted.v.)
+   [run true true ...] / [step true true ...]: the two booleans select the code as pinned (both
+   repairs of commits ab51dc9 and 8dbc525 present; the older variants exist for Refuted.v).
+   [clean_hist h] (executable, Model.v): no request supplies None for one of the five values,
+   compile_in_tx never supplies None as state, and no compile* request gets an unusable
+   (status 2) reply.  EVERY other fault placement is allowed (request lost, unpickle failure
+   of any of the six fields, compiler exception), as are falsy (empty) objects.  Status-2
+   replies are where the full statement FAILS of the pinned code: Refuted.v (known finding
+   C17-status2-unacked).
    Vocabulary (Proofs.v): [in_sync cont b r] = every database the server believes worker to
    hold is held with exactly the believed contents, same for global schema, system config,
    and the believed LAST_STATE. *)
@@ -35,8 +38,8 @@ Local Open Scope N_scope.
 (* whatever the history: the compiler is entered with exactly the five values supplied *)
 Theorem C17_args_exact : forall (fal : N -> bool) (cont : N -> N) h
     w m db us gs rc dc sc f x a b c d e re,
-  clean_hist fal h = true ->
-  In (OCompile w m db us gs rc dc sc f, OutC x (ObsC a b c d e) re) (run fal cont sys0 h) ->
+  clean_hist h = true ->
+  In (OCompile w m db us gs rc dc sc f, OutC x (ObsC a b c d e) re) (run true true fal cont sys0 h) ->
   a = cont us /\ b = cont gs /\ c = cont rc /\ d = cont dc /\ e = cont sc.
 Proof. exact p_args_exact. Qed.
 Print Assumptions C17_args_exact.
@@ -45,16 +48,16 @@ Print Assumptions C17_args_exact.
    schema is the one supplied (with the marker the worker's cached state object is used) *)
 Theorem C17_tx_exact : forall (fal : N -> bool) (cont : N -> N) h
     avail db us ps f w reuse sid root re,
-  clean_hist fal h = true ->
-  In (OTx avail db us ps f, OutT w reuse (ObsT sid root) re) (run fal cont sys0 h) ->
+  clean_hist h = true ->
+  In (OTx avail db us ps f, OutT w reuse (ObsT sid root) re) (run true true fal cont sys0 h) ->
   sid = ps /\ (reuse = false -> root = cont us).
 Proof. exact p_tx_exact. Qed.
 Print Assumptions C17_tx_exact.
 
 (* after every request the server's belief about every worker is what the worker holds *)
 Theorem C17_belief_sound : forall (fal : N -> bool) (cont : N -> N) h w b r,
-  clean_hist fal h = true ->
-  find w (ws (final fal cont sys0 h)) = Some (b, r) -> in_sync cont b r.
+  clean_hist h = true ->
+  find w (ws (final true true fal cont sys0 h)) = Some (b, r) -> in_sync cont b r.
 Proof. exact p_belief_sound. Qed.
 Print Assumptions C17_belief_sound.
 
@@ -62,7 +65,7 @@ Print Assumptions C17_belief_sound.
    the one the compiler is entered with *)
 Theorem C17_sent_exact : forall (fal : N -> bool) (cont : N -> N) s
     w m db us gs rc dc sc f s' x a b c d e re,
-  step fal cont s (OCompile w m db us gs rc dc sc f) = (s', OutC x (ObsC a b c d e) re) ->
+  step true true fal cont s (OCompile w m db us gs rc dc sc f) = (s', OutC x (ObsC a b c d e) re) ->
   (x_us x <> None -> a = cont us) /\ (x_gs x <> None -> b = cont gs) /\
   (x_rc x <> None -> c = cont rc) /\ (x_dc x <> None -> d = cont dc) /\
   (x_sc x <> None -> e = cont sc).
@@ -75,7 +78,7 @@ Theorem C17_unknown_db_sends_all : forall (fal : N -> bool) (cont : N -> N) s w 
     m db us gs rc dc sc f s' x a bb c d e re,
   find w (ws s) = Some (b, r) -> find db (b_dbs b) = None ->
   is_none us = false -> is_none gs = false ->
-  step fal cont s (OCompile w m db us gs rc dc sc f) = (s', OutC x (ObsC a bb c d e) re) ->
+  step true true fal cont s (OCompile w m db us gs rc dc sc f) = (s', OutC x (ObsC a bb c d e) re) ->
   a = cont us /\ bb = cont gs /\ c = cont rc /\ d = cont dc /\ e = cont sc.
 Proof. exact unknown_db_exact. Qed.
 Print Assumptions C17_unknown_db_sends_all.
@@ -83,7 +86,7 @@ Print Assumptions C17_unknown_db_sends_all.
 (* every history, every fault, every value: the server never believes a worker to have a
    database that the worker does not have (compile_in_tx by name cannot hit a KeyError) *)
 Theorem C17_keys_sound : forall (fal : N -> bool) (cont : N -> N) h w b r db,
-  find w (ws (final fal cont sys0 h)) = Some (b, r) ->
+  find w (ws (final true true fal cont sys0 h)) = Some (b, r) ->
   find db (b_dbs b) <> None -> find db (w_dbs r) <> None.
 Proof. exact p_keys_sound. Qed.
 Print Assumptions C17_keys_sound.
@@ -98,16 +101,22 @@ Definition ex_h : list op :=
    OCompile 2 MOther 1 3 4 8 20 6 FCompiler;              (* compiler error: still acknowledged *)
    OTx [2; 1] 1 2 3 FNone;                                (* queue prefers the worker with the state *)
    OCompile 1 MOther 1 12 14 8 20 16 FNone;
-   OTx [2] 1 2 6 FNone].                                  (* other worker: state + root schema sent *)
+   OTx [2] 1 2 6 FNone;                                   (* other worker: state + root schema sent *)
+   OCompile 1 MOther 1 13 15 8 100 16 (FUnpickle 2);      (* global schema fails: nothing stored *)
+   OCompile 1 MOther 1 12 14 8 100 16 FNone;              (* empty config: sent and recorded *)
+   OCompile 1 MOther 1 12 14 8 20 16 FNone].              (* back to object 20: sent again *)
 
 Example C17_clean_nonvacuous :
-  clean_hist fal0 ex_h = true /\
-  map snd (run fal0 cont0 sys0 ex_h) =
+  clean_hist ex_h = true /\
+  map snd (run true true fal0 cont0 sys0 ex_h) =
   [OutR true; OutR true;
    OutC (mkWire None None None (Some 20) None) (ObsC 1 2 4 10 3) (ROk 3);
    OutC (mkWire (Some 2) (Some 8) (Some 4) (Some 20) (Some 6)) ObsNone (RErr ESync);
    OutC (mkWire (Some 3) (Some 8) (Some 4) (Some 20) (Some 6)) (ObsC 1 2 4 10 3) (RErr EComp);
    OutT 1 true (ObsT 3 1) (ROk 6);
    OutC (mkWire (Some 12) None (Some 14) None (Some 16)) (ObsC 6 7 4 10 8) (ROk 0);
-   OutT 2 false (ObsT 6 1) (ROk 8)].
+   OutT 2 false (ObsT 6 1) (ROk 8);
+   OutC (mkWire (Some 13) None (Some 15) (Some 100) None) ObsNone (RErr ESync);
+   OutC (mkWire None None None (Some 100) None) (ObsC 6 7 4 50 8) (ROk 0);
+   OutC (mkWire None None None (Some 20) None) (ObsC 6 7 4 10 8) (ROk 0)].
 Proof. split; vm_compute; reflexivity. Qed.
